@@ -121,6 +121,9 @@ namespace embedded_pairing::wkdibe {
                         qualified.a0.add(qualified.a0, temp);
                         x++;
                     }
+                } else if (x != sk.l && sk.b[x].idx == i) {
+                    /* Hidden slot: drop the parent's component for it. */
+                    x++;
                 }
                 k++;
             } else if (x != sk.l && sk.b[x].idx == i) {
